@@ -2,10 +2,13 @@ package props
 
 import (
 	"bytes"
+	"encoding/json"
 	"errors"
 	"fmt"
 	"io"
 	"math/rand"
+	"os"
+	"regexp"
 	"sort"
 	"strconv"
 	"strings"
@@ -1946,6 +1949,53 @@ func c09DedupeChecks(ctx *core.Ctx, r *rand.Rand, d *drv.Driver, p *c09Pending, 
 	}
 }
 
+// ---------------------------------------------------------------- replay of a recorded case
+
+var c09CanonRe = regexp.MustCompile(`^((?:col\(opt=\w+,desc=\w+,nf=\w+\) )+)mcols=(\d+) storage=(\w+) pagebuf=(\d+) batches=\[([\d ]*)\] dedupe=(\w+) path=(\w+) lists=(\w+) seeks=\[([\d ]*)\] inputs=(.*)$`)
+
+// c09ParseCanon rebuilds a case from its canonical text (the "case" field of a failure detail)
+func c09ParseCanon(text string) (*c09Case, error) {
+	m := c09CanonRe.FindStringSubmatch(strings.TrimSpace(text))
+	if m == nil {
+		return nil, errors.New("not a canonical C09 case")
+	}
+	c := &c09Case{Storage: m[3], Path: m[7], Pattern: "replay", Dedupe: m[6] == "true", Lists: m[8] == "true"}
+	for _, cm := range regexp.MustCompile(`col\(opt=(\w+),desc=(\w+),nf=(\w+)\)`).FindAllStringSubmatch(m[1], -1) {
+		c.Cols = append(c.Cols, c09Col{Opt: cm[1] == "true", Desc: cm[2] == "true", NF: cm[3] == "true"})
+	}
+	c.MCols, _ = strconv.Atoi(m[2])
+	c.PageBuf, _ = strconv.Atoi(m[4])
+	for _, f := range strings.Fields(m[5]) {
+		v, _ := strconv.Atoi(f)
+		c.Batches = append(c.Batches, v)
+	}
+	for _, f := range strings.Fields(m[9]) {
+		v, _ := strconv.Atoi(f)
+		c.Seeks = append(c.Seeks, v)
+	}
+	for i, in := range strings.Split(m[10], "/") {
+		var rows []c09Row
+		if in != "-" {
+			for j, rt := range strings.Split(in, ",") {
+				row := c09Row{Inp: int32(i), Seq: int32(j)}
+				for cidx, vt := range strings.Split(rt, ";") {
+					if vt == "n" {
+						row.Null[cidx] = true
+					} else {
+						row.K[cidx], _ = strconv.ParseInt(vt, 10, 64)
+					}
+				}
+				rows = append(rows, row)
+			}
+		}
+		c.Inputs = append(c.Inputs, rows)
+	}
+	if len(c.Batches) == 0 {
+		return nil, errors.New("no batch sizes")
+	}
+	return c, nil
+}
+
 // ---------------------------------------------------------------- entry point
 
 func RunC09(ctx *core.Ctx) {
@@ -1975,6 +2025,36 @@ func RunC09(ctx *core.Ctx) {
 	}
 	for _, c := range fixed {
 		c09Check(ctx, c, nil)
+	}
+
+	// recorded cases first: corpus/C09/*.case hold the canonical text of one case each; -replay <file>
+	// (a replay json written by ./check, or a .case file) runs that case alone
+	replayOne := func(path string) bool {
+		b, err := os.ReadFile(path)
+		if err != nil {
+			return false
+		}
+		text := string(b)
+		var rec struct {
+			Detail struct {
+				Case string `json:"case"`
+			} `json:"detail"`
+		}
+		if json.Unmarshal(b, &rec) == nil && rec.Detail.Case != "" {
+			text = rec.Detail.Case
+		}
+		c, err := c09ParseCanon(text)
+		if err != nil {
+			return false
+		}
+		c09Check(ctx, c, nil)
+		return true
+	}
+	if ctx.Replay != "" && replayOne(ctx.Replay) {
+		return
+	}
+	for _, f := range ctx.CorpusFiles() {
+		replayOne(f)
 	}
 
 	workers := 14
